@@ -466,6 +466,26 @@ func (c *Cron) schedule(ctx *core.Context, job *CronJob, checkLimit bool) error 
 
 	c.Lock()
 
+	// Check the limit before touching the timeline, so that a
+	// refused request has no effect.  A pending job with the same
+	// id is replaced, not added, so it does not count.
+	if checkLimit {
+		count := len(c.Timeline)
+		for _, pending := range c.Timeline {
+			if pending.Id == job.Id {
+				count--
+				break
+			}
+		}
+		limit := c.Limit
+		if limit <= count {
+			err := fmt.Errorf("Cron %p %s capacity limit (%d) hit", c, c.Name, limit)
+			core.Log(core.WARN|CRON, ctx, "Cron.schedule", "limit", limit, "error", err, "name", c.Name)
+			c.Unlock()
+			return err
+		}
+	}
+
 	//remove existing job with the same id
 	if _, err := c.rem(ctx, job.Id); nil != err {
 		c.Unlock()
@@ -473,21 +493,10 @@ func (c *Cron) schedule(ctx *core.Context, job *CronJob, checkLimit bool) error 
 		return err
 	}
 
-	var err error
-	if checkLimit {
-		count := len(c.Timeline)
-		limit := c.Limit
-		if limit <= count {
-			err = fmt.Errorf("Cron %p %s capacity limit (%d) hit", c, c.Name, limit)
-			core.Log(core.WARN|CRON, ctx, "Cron.schedule", "limit", limit, "error", err, "name", c.Name)
-		}
-	}
-	if err == nil {
-		c.insert(ctx, job)
-	}
+	c.insert(ctx, job)
 
 	c.Unlock()
-	return err
+	return nil
 }
 
 // Add creates a new cron job.
